@@ -458,7 +458,11 @@ Print Assumptions C18_reject_nested_length_prefix.
    change; the matching dynamic search is the harness's environment family:
    codec round trip, restart family and malformed tail points of Round2 under
    several GOMAXPROCS values, keys c18:<Decoder>:gomaxprocs=<n>:... and
-   c18:resume:gomaxprocs=<n>.) *)
+   c18:resume:gomaxprocs=<n>.  Likewise a package-level variable filled lazily
+   by some round (a table under a sync.Once, a cache) is process state the
+   model does not have; its dynamic counterpart is the fresh-process restart
+   family: child processes that only decode the stored session and pending
+   message and continue, keys c18:fresh-process:<role>:error / :differs.) *)
 Theorem C18_state_inventory :
   Mpc.Base.StateCheck.state_unchanged Mpc.Gen.State.state_inventory Mpc.Base.StateExpected.expected_state
     Mpc.Base.StatePkgs.pkgs_C18 = true.
